@@ -1,6 +1,7 @@
 import Rivaas.Proto
 import Rivaas.Spec.Lifecycle
 import Rivaas.Model.Lifecycle
+import Rivaas.Model.LifecycleSkel
 /-
 Driver for C09. Case line (see harness/c09):
 
@@ -162,11 +163,59 @@ def showObs (o : Obs) : String :=
   " ".intercalate (o.reqs.map showReqRes) ++ s!" RR {o.rounds.length} " ++
   " ".intercalate (o.rounds.map showRRes)
 
+/-! ### skeleton lines: `<id> SKEL <n> { <name> <term> }… => OK` -/
+
+open Rivaas.LifecycleSkel in
+def pStmt : Nat → P Stmt
+  | 0 => failure
+  | f + 1 => do
+    let t ← tok
+    match t with
+    | "C" => do let n ← str; let q ← str; pure (.call n q)
+    | "R" => pure .ret
+    | "T" => Stmt.tail <$> str
+    | "G" => Stmt.goto <$> str
+    | "K" => pure .skip
+    | "S" => do let a ← pStmt f; let b ← pStmt f; pure (.seq a b)
+    | "I" => do let a ← pStmt f; let b ← pStmt f; pure (.ite 0 a b)
+    | "O" => Stmt.scope <$> pStmt f
+    | _ => failure
+
+open Rivaas.LifecycleSkel in
+/-- one fresh atom per `if` occurrence -/
+def number : Stmt → Nat → Stmt × Nat
+  | .seq a b, n => let (a', n1) := number a n; let (b', n2) := number b n1; (.seq a' b', n2)
+  | .ite _ t e, n => let (t', n1) := number t (n + 1); let (e', n2) := number e n1; (.ite n t' e', n2)
+  | .scope s, n => let (s', n1) := number s n; (.scope s', n1)
+  | s, n => (s, n)
+
+open Rivaas.LifecycleSkel in
+def pSkels : P Skels := do
+  let n ← nat
+  let fuel := 100000
+  let items ← manyN n (do let name ← str; let t ← pStmt fuel; pure (String.ofList name, (number t 0).1))
+  let entries := (items.filter fun p => p.1.startsWith "entry-").map (·.2)
+  let arms := (items.filter fun p => p.1.startsWith "run-arm").map (·.2)
+  match items.find? (·.1 == "run-pre"), items.find? (·.1 == "run-go"), items.find? (·.1 == "run-after") with
+  | some pre, some go, some after =>
+    pure { entries := entries, pre := pre.2, go := go.2, arms := arms, after := after.2 }
+  | _, _, _ => failure
+
+open Rivaas.LifecycleSkel in
+def stepSkel (id : String) (inp : List String) : String :=
+  match runP pSkels inp with
+  | some k =>
+    let v := check k
+    verdict id v.ok true "-"
+      s!"entries={b01 v.entries} pre={b01 v.pre} go={b01 v.go} arms={b01 v.arms} leaves={b01 v.leaves} after={b01 v.after}"
+  | none => s!"{id} bad-case"
+
 /-- `fx` = the variant of the code the implementation observations come from: `current` in a check run;
     `C09_FIXES=abcdeg` (six 0/1 flags) lets the as-shipped model be validated against an as-shipped tree -/
 def stepWith (fx : Fixes) (line : String) : String :=
   match splitCase line with
   | none => "? bad-line"
+  | some (id, "SKEL" :: inp, _) => stepSkel id inp
   | some (id, inp, obs) =>
     match runP pScenario inp, runP pObs obs with
     | some sc, some o =>
